@@ -555,13 +555,15 @@ theorem good_scanNameStep (w : World) (rel : Str) (fns : List Str) (x x' : ScanS
     split at h
     · cases h; exact Good.refl _ hx
     · split at h
-      · cases h
-      · rename_i st' htl
-        cases h
-        exact good_tryLoad w x.st st' _ true hx htl
-      · rename_i st' htl
-        cases h
-        exact good_tryLoad w x.st st' _ false hx htl
+      · cases h; exact Good.refl _ hx
+      · split at h
+        · cases h
+        · rename_i st' htl
+          cases h
+          exact good_tryLoad w x.st st' _ true hx htl
+        · rename_i st' htl
+          cases h
+          exact good_tryLoad w x.st st' _ false hx htl
 
 theorem good_scanDir (w : World) (ed : EntryDict) (ss ss' : ScanSt) (sys rel : Str) (dev ino : Nat) (kids : List (Str × Node))
     (keep : List Str) (hs : Fresh ss.st) (h : scanDir w ed ss sys rel dev ino kids = .ok (ss', keep)) : Good ss.st ss'.st := by
